@@ -26,7 +26,9 @@ where
 					for i in lo..hi {
 						f(i, &mut st, &mut local);
 					}
+					crate::mem::backpressure();
 				}
+				crate::mem::flush();
 				rep.merge(local);
 			});
 		}
